@@ -486,12 +486,12 @@ func ops() []op {
 		txs := append([]*blockchain.Transaction{}, b.Transactions...)
 		size := 0
 		for _, tx := range txs {
-			size += tx.Size()
+			size += len(tx.Encode()) // own measure, not the cached Size()
 		}
 		for i := 0; size <= int(c.n.Cfg.MaxTxLength); i++ {
 			tx := node.MakeTx(13, uint64(1000+i), 5, node.TxOK, 0, 900)
 			txs = append(txs, tx)
-			size += tx.Size()
+			size += len(tx.Encode()) // own measure, not the cached Size()
 		}
 		setTxs(b, txs)
 		rebuild(c, b)
